@@ -751,6 +751,9 @@ func TestVerifC05(t *testing.T) {
 	}
 	replays := 0
 	start := time.Now()
+	if vReplayLines() == nil {
+		vC05HoleCorpus(out, stats)
+	}
 	for _, p := range progs {
 		hook := &vC05Hook{}
 		hook.install()
@@ -800,4 +803,91 @@ func TestVerifC05(t *testing.T) {
 	stats["replays"] = replays
 	stats["seconds"] = int(time.Since(start).Seconds())
 	out.emit(vM{"k": "stat", "dist": stats})
+}
+
+// vC05HoleCorpus is a fixed history with two crashes (DESIGN.md section 0.3): a clean by the
+// message limit deletes newest first; interrupted, it leaves a hole that holds the start of epoch 2;
+// the log is reopened, truncated at the base of the segment after the hole, a message of epoch 3
+// is appended and the log reopened again. The epoch history must fit the messages.
+func vC05HoleCorpus(out *vOut, stats map[string]int) {
+	dir := filepath.Join(os.Getenv("VERIF_WORK"), "log_c05hole")
+	os.RemoveAll(dir)
+	defer os.RemoveAll(dir)
+	opts := Options{Path: dir, Name: "verif", MaxSegmentBytes: 100, MaxLogMessages: 3, CleanerInterval: time.Hour, HWCheckpointInterval: time.Hour}
+	fail := func(sig, what string) {
+		out.emit(vM{"k": "violation", "sig": sig, "what": what, "case": vM{"k": "c05-corpus", "name": "hole"}})
+	}
+	li, err := New(opts)
+	if err != nil {
+		fail("reopen-failed@corpus-hole", err.Error())
+		return
+	}
+	l := li.(*commitLog)
+	ts := int64(1000)
+	app := func(l *commitLog, ep uint64, n int) {
+		for i := 0; i < n; i++ {
+			ts++
+			l.Append([]*Message{{MagicByte: 1, Timestamp: ts, LeaderEpoch: ep, Value: bytes.Repeat([]byte("x"), 20), Offset: -1}})
+		}
+	}
+	app(l, 1, 7)
+	app(l, 2, 5)
+	l.SetHighWatermark(l.NewestOffset())
+	hits := 0
+	CrashHook = func(p string) {
+		if p == "clean:deleting-segment" {
+			hits++
+			if hits == 3 { // the two newest victims are gone, the oldest are still there
+				panic(vC05Crash{p})
+			}
+		}
+	}
+	func() {
+		defer func() { recover() }()
+		l.Clean()
+	}()
+	CrashHook = nil
+	vC05Abandon(l)
+	if li, err = New(opts); err != nil {
+		fail("reopen-failed@corpus-hole", err.Error())
+		return
+	}
+	l = li.(*commitLog)
+	segs := l.Segments()
+	tr := segs[len(segs)-1].BaseOffset
+	if err := l.Truncate(tr); err != nil {
+		fail("truncate-failed@corpus-hole", err.Error())
+		return
+	}
+	app(l, 3, 1)
+	l.Close()
+	if li, err = New(opts); err != nil {
+		fail("reopen-failed@corpus-hole", err.Error())
+		return
+	}
+	l = li.(*commitLog)
+	defer l.Close()
+	rd, err := l.NewReader(l.OldestOffset(), true)
+	if err != nil {
+		fail("read-failed@corpus-hole", err.Error())
+		return
+	}
+	_, recs, _ := vReadUntilBlock(rd, true)
+	var cache [][]int64
+	for _, eo := range l.leaderEpochCache.epochOffsets {
+		cache = append(cache, []int64{int64(eo.leaderEpoch), eo.startOffset})
+	}
+	stats["corpus/hole-then-truncate"]++
+	for _, g := range recs {
+		ep := int64(0)
+		for _, eo := range cache {
+			if eo[1] <= g.off {
+				ep = eo[0]
+			}
+		}
+		if uint64(ep) != g.ep {
+			fail("epoch-mismatch@corpus-hole", fmt.Sprintf("12 messages in 6 segments (epoch 2 starts at offset 7), message limit 3, Clean dies after deleting the two newest victims (hole 6..9), reopen, Truncate(%d), append in epoch 3, reopen: offset %d was written in leader epoch %d, the recovered epoch history %v says %d", tr, g.off, g.ep, cache, ep))
+			return
+		}
+	}
 }
